@@ -51,6 +51,13 @@ def batch_oracle(ctx, lines, impl):
                 verdicts[i] = "only one of inline / parameterised form is accepted: %r vs %r" % (r_inl[:2], r_par[:2])
             else:
                 rejected_semantic += 1   # e.g. constraint failure, aggregate misuse: same for both forms
+                # ... unless the fully explicit rendering of the same builder calls IS accepted: then the
+                # implementation's text does not say what the calls said (e.g. a conflict target lost its WHERE)
+                if f != "PANIC" and " " not in f:
+                    r_full = sqlite_run.run(unhexs(f), ordered=ordered)
+                    if r_full[0] == "ok":
+                        verdicts[i] = ("sqlite3 refuses the rendering (%s) but executes the fully explicit rendering of the "
+                                       "same builder calls" % r_inl[1])
             continue
         executed += 1
         if r_inl != r_par:
